@@ -14,7 +14,10 @@ Executors(kind) == IF kind = 0 THEN 1 ELSE 2
 RecOK(r) ==
   /\ r.n >= 0 /\ r.n <= r.times                                     \* at most timesToRun invocations
   /\ ((r.falseAt > 0 /\ r.kind = 0) => r.n <= r.falseAt)             \* none after it returned false (serial)
-  /\ (r.first >= 0 => r.first >= r.delay - EarlyTol(r.delay))        \* never before its scheduled time
+  \* never before its scheduled time: early only if BOTH clocks say so -- steady_clock (outside view, with
+  \* tolerance) and dispenso::getTime() itself, the scale the scheduled time is expressed in (its rate is
+  \* calibrated against a 50 ms sleep at start-up and can be off by more than the tolerance on a loaded machine)
+  /\ (r.first >= 0 => (r.first >= r.delay - EarlyTol(r.delay) \/ r.firstLib >= r.delay - 12))
   /\ r.calls <= r.enteredAtCalls /\ r.calls <= r.times               \* calls() counts completed invocations
   /\ (r.atCancel >= 0 => r.n <= r.atCancel + Executors(r.kind))      \* none starts after cancel() (R2)
   /\ (r.action # 3 => r.inprog = 0 /\ r.late = 0 /\ r.fdead = 1)     \* ~TimedTask(): quiescent, function gone
